@@ -9,6 +9,8 @@ optimizer sees and back.
                                 on one named slice of an vectors/optimizer_vector.py:OptimizerVector
                                 (the `driver_scaling` flag of the vector is part of the state)
   * `scaleBound`                autoscaler.py:_scale_bound (+ the defaults of _compute_scaled_bounds)
+  * `scaledBounds`              autoscaler.py:_compute_scaled_bounds for one variable, both variants
+                                (`swapNeg`: exchange under a negative scaler, /repo cf7cce3)
   * `jacUnit`, `jacScale`       core/total_jac.py:_apply_unit_scaling, autoscaler.py:apply_jac_scaling
                                 (one block); `jacFlat` / `jacNested` the two dict layouts;
                                 `jacUnitGate` the `has_custom_derivs` switch of _TotalJacInfo.__init__
@@ -267,6 +269,51 @@ def scaleBound (inf : K) (isLower : Bool) (adder scaler : Option (Sv K)) (size :
         | .ok s =>
           .ok (zip3With (fun v a s => boundElemOpt inf isLower a s v) arr (optList a size)
             (optList s size))
+
+/-! The pair of scaled bounds of one variable (`_compute_scaled_bounds`).  Two variants of the code are
+modelled: `swapNeg = false` is the pinned snapshot (each bound scaled on its own), `swapNeg = true`
+the repaired code (/repo cf7cce3): where the scaler is negative the scaled upper bound becomes the
+driver-space lower bound and vice versa, a sentinel becoming the opposite sentinel. -/
+section BoundPair
+variable [LT K] [DecidableLT K] [OfNat K 0]
+
+def Sv.any (p : K → Bool) : Sv K → Bool
+  | .scalar x => p x
+  | .array l => l.any p
+
+/-- One element of the exchange: `lo_sw = where(upper_s >= INF, -INF, upper_s)`,
+`hi_sw = where(lower_s <= -INF, INF, lower_s)`, taken where `neg`. -/
+def swapElem (inf : K) (neg : Bool) (lo up : K) : K × K :=
+  if neg then (if inf ≤ up then -inf else up, if lo ≤ -inf then inf else lo) else (lo, up)
+
+/-- `autoscaler.py:_compute_scaled_bounds` for one variable: `(lower_s, upper_s)`. -/
+def scaledBounds (swapNeg : Bool) (inf : K) (adder scaler : Option (Sv K)) (size : Nat)
+    (lower upper : Option (Sv K)) : Except Err (List K × List K) :=
+  match scaleBound inf true adder scaler size lower with
+  | .error e => .error e
+  | .ok lo =>
+    match scaleBound inf false adder scaler size upper with
+    | .error e => .error e
+    | .ok up =>
+      match scaler with
+      | none => .ok (lo, up)
+      | some sv =>
+        if swapNeg && sv.any (fun s => decide (s < 0)) then
+          -- neg = np.broadcast_to(scaler < 0, (size,))
+          match sv.bcast size with
+          | .error e => .error e
+          | .ok sl =>
+            let neg := sl.map (fun s => decide (s < 0))
+            .ok (zip3With (fun n l u => (swapElem inf n l u).1) neg lo up,
+                 zip3With (fun n l u => (swapElem inf n l u).2) neg lo up)
+        else .ok (lo, up)
+
+/-- What a pair of bounds means to an optimizer, the sentinels standing for "no bound"
+(`scipy_optimizer.py`: `p_low <= -INF_BOUND → None`, `p_high >= INF_BOUND → None`). -/
+def feasB (inf lo hi x : K) : Bool :=
+  (decide (lo ≤ -inf) || decide (lo ≤ x)) && (decide (inf ≤ hi) || decide (x ≤ hi))
+
+end BoundPair
 
 end Bounds
 
